@@ -29,6 +29,7 @@
 From Coq Require Import List NArith ZArith Bool.
 From ApiFu Require Import Base.Sexp Transport.EnvelopeModel Transport.EnvelopeSpec Transport.EnvelopeProofs.
 From ApiFu Require Import Transport.JsonText Transport.JsonTextProofs Transport.EnvelopeCompose.
+From ApiFu Require Import Transport.WireModel Transport.WireProofs.
 From ApiFu Require Api.PersistedQueryModel.
 Import ListNotations.
 
@@ -259,7 +260,88 @@ Section C17Bytes.
                (pq_of Resp (event Features Ctx Doc) sha not_found st) marshal
                (pq_of_no_ext Resp (event Features Ctx Doc) sha not_found st)).
   Qed.
+  (** ** the response side: the answer on the wire (Transport/WireModel.v).
+      [wire_respond t a c id o]: what the client that submits [o] over [t] receives — HTTP: status,
+      Content-Type, body ([http_frame]); a socket: the text frames sent for operation [id]
+      ([ws_frame]: id, type data / next / complete, payload).  [frame_answer t id ps] is the
+      transport's framing of the marshalled responses [ps].  Every GraphQL-level outcome (syntax /
+      validation error, cost limit, execution error, PersistedQueryNotFound) is a response value:
+      HTTP answers 200 application/json with it, a socket sends it in a data / next frame followed by
+      complete; only a malformed envelope (4xx, text/plain) and a response that does not marshal (500 /
+      no data frame) are framed differently.
+      transport_same_response, strengthened: the two wire answers are the two framings of ONE response
+      body, and the pipeline saw the same calls *)
+  Theorem C17_transport_same_wire_answer :
+    forall (Schema Features Ctx Doc Resp : Type) (no_features : Features)
+           (parse_validate : Schema -> Features -> Z * Z -> bytes -> bytes -> option gomap -> pv_result Doc Resp)
+           (is_subscription : Doc -> bytes -> bool)
+           (execute : bool -> Schema -> exec_request Features Doc -> Z -> Resp)
+           (run_subscription : bool -> Schema -> exec_request Features Doc -> Z -> list Resp)
+           (marshal : Resp -> option bytes)
+           (sha : bytes -> bytes) (not_found : Resp) (st : PersistedQueryModel.storage),
+    let pq := pq_of Resp (event Features Ctx Doc) sha not_found st in
+    let resp := respond no_features parse_validate is_subscription execute run_subscription pq marshal fixed
+                        (parse_text StdJson numval) (parse_text StdJson numval) (print numprint) in
+    let wire := wire_respond no_features parse_validate is_subscription execute run_subscription pq marshal fixed
+                        (parse_text StdJson numval) (parse_text StdJson numval) (print numprint) in
+    forall t1 t2 (a : api Schema Features Ctx) c id1 id2 o,
+    wf_op o = true -> carries t1 o = true -> carries t2 o = true ->
+    (forall j, In j (sent_json t1 o) \/ In j (sent_json t2 o) -> text_clean numclean j) ->
+    (forall d cost, parse_validate (a_schema a) (features_of no_features a c) (a_default_cost a) (o_query o) (o_opname o) (o_vars o) = PVOk d cost ->
+                    is_subscription d (o_opname o) = false) ->
+    (forall r tr, validate_execute parse_validate execute a (features_of no_features a c) (request_of o) = (r, tr) -> marshal r <> None) ->
+    exists body,
+      wire t1 a c id1 o = frame_answer t1 id1 [body] /\ wire t2 a c id2 o = frame_answer t2 id2 [body] /\
+      snd (resp t1 a c id1 o) = snd (resp t2 a c id2 o).
+  Proof.
+    exact (fun Schema Features Ctx Doc Resp no_features parse_validate is_subscription execute run_subscription marshal sha not_found st =>
+             transport_same_wire_answer (print numprint) (parse_text StdJson numval) (parse_text StdJson numval) (text_clean numclean)
+               (std_faithful_bytes numval numprint numclean num_nonempty num_chars num_grammar num_back)
+               (std_faithful_bytes numval numprint numclean num_nonempty num_chars num_grammar num_back)
+               (render_nonempty_bytes_clean numprint numclean num_nonempty num_chars)
+               Schema Features Ctx Doc Resp no_features parse_validate is_subscription execute run_subscription
+               (pq_of Resp (event Features Ctx Doc) sha not_found st) marshal
+               (pq_of_no_ext Resp (event Features Ctx Doc) sha not_found st)).
+  Qed.
 End C17Bytes.
+
+(** the framing functions are injective on response bytes: answers that are equal on the wire carry
+    the same response(s); so "same wire answer modulo framing" determines the response *)
+Theorem C17_framing_injective :
+  (forall t id b b', http_transport t = true -> frame_answer t id [b] = frame_answer t id [b'] -> b = b') /\
+  (forall t id ps ps', http_transport t = false -> frame_answer t id ps = frame_answer t id ps' -> ps = ps') /\
+  (forall p id x y, ws_frame p (WsData id x) = ws_frame p (WsData id y) -> x = y).
+Proof. exact (conj frame_answer_inj_http (conj frame_answer_inj_ws ws_frame_data_inj)). Qed.
+
+(** whenever a client is answered with payloads [ps], the bytes it receives are the framing of [ps]:
+    for every API, transport, operation — including subscriptions (several data frames) and error
+    responses *)
+Theorem C17_wire_is_framing_of_response :
+  forall (Schema Features Ctx Doc Resp : Type) (no_features : Features)
+         (parse_validate : Schema -> Features -> Z * Z -> bytes -> bytes -> option gomap -> pv_result Doc Resp)
+         (is_subscription : Doc -> bytes -> bool)
+         (execute : bool -> Schema -> exec_request Features Doc -> Z -> Resp)
+         (run_subscription : bool -> Schema -> exec_request Features Doc -> Z -> list Resp)
+         (pq_ext : (request -> Resp * list (event Features Ctx Doc)) -> request -> Resp * list (event Features Ctx Doc))
+         (marshal : Resp -> option bytes) (qk : quirks) (parse_std parse_jsi : bytes -> jparse) (render : json -> bytes)
+         t (a : api Schema Features Ctx) c id o ps,
+    fst (respond no_features parse_validate is_subscription execute run_subscription pq_ext marshal qk parse_std parse_jsi render t a c id o) = Some ps ->
+    wire_respond no_features parse_validate is_subscription execute run_subscription pq_ext marshal qk parse_std parse_jsi render t a c id o
+    = frame_answer t id ps.
+Proof. exact wire_of_respond. Qed.
+
+(** a malformed HTTP envelope on the wire: a 4xx status, Content-Type text/plain, no call *)
+Theorem C17_malformed_http_wire :
+  forall (parse_std : bytes -> jparse) (Schema Features Ctx Doc Resp : Type) (no_features : Features)
+         (parse_validate : Schema -> Features -> Z * Z -> bytes -> bytes -> option gomap -> pv_result Doc Resp)
+         (execute : bool -> Schema -> exec_request Features Doc -> Z -> Resp)
+         (pq_ext : (request -> Resp * list (event Features Ctx Doc)) -> request -> Resp * list (event Features Ctx Doc))
+         (marshal : Resp -> option bytes) (a : api Schema Features Ctx) c e,
+    http_well_formed parse_std e = false ->
+    exists code, http_frame (fst (serve_graphql no_features parse_validate execute pq_ext marshal fixed parse_std a c e)) =
+                 {| hw_status := code; hw_ctype := ct_text; hw_body := None |} /\ (400 <= code < 500)%Z /\
+                 snd (serve_graphql no_features parse_validate execute pq_ext marshal fixed parse_std a c e) = [].
+Proof. exact malformed_http_wire. Qed.
 
 (** ** the two repaired defects, kept as witnesses against the pinned code *)
 
@@ -310,6 +392,10 @@ Print Assumptions C17_clone_same_response.
 Print Assumptions C17_json_text_roundtrip.
 Print Assumptions C17_envelope_roundtrip_bytes.
 Print Assumptions C17_transport_same_response_bytes.
+Print Assumptions C17_transport_same_wire_answer.
+Print Assumptions C17_framing_injective.
+Print Assumptions C17_wire_is_framing_of_response.
+Print Assumptions C17_malformed_http_wire.
 Print Assumptions C17_ws_payload_library_refuted_before_fix.
 Print Assumptions C17_post_url_query_refuted_before_fix.
 Print Assumptions C17_trailing_bytes_refuted_before_fix.
